@@ -32,6 +32,9 @@ props! {
     "C12" => c12,
     "C13" => c13,
     "C14" => c14,
+    "C15" => c15,
+    "C16" => c16,
+    "C18" => c18,
     "C19" => c19,
     "C20" => c20,
 }
